@@ -799,10 +799,19 @@ def lab_run(ctx, s, prefix, cli_bin, runner_bin):
         q = subprocess.run(['timeout', '60'] + cmd, stdout=subprocess.PIPE, stderr=subprocess.PIPE, text=True, errors='replace')
         elapsed_ms = int((_t.time() - t0) * 1000)
         # 'repeat': the same invocation again and again; the first one that fails or loses a hop is the outcome
+        def _shape(x):
+            try:
+                return [[h.get('ip_address') or '' for h in r['hops']] for r in json.loads(x.stdout)['traceroute']['runs']]
+            except Exception:
+                return None
+        first = _shape(q)
         for _ in range(int(s.get('repeat') or 1) - 1):
-            if q.returncode != 0 or '"ip_address": ""' in q.stdout or '"reachable": false' in q.stdout:
+            if q.returncode != 0 or first is None:
                 break
-            q = subprocess.run(['timeout', '60'] + cmd, stdout=subprocess.PIPE, stderr=subprocess.PIPE, text=True, errors='replace')
+            q2 = subprocess.run(['timeout', '60'] + cmd, stdout=subprocess.PIPE, stderr=subprocess.PIPE, text=True, errors='replace')
+            if q2.returncode != 0 or _shape(q2) != first:
+                q = q2          # this invocation differs from the first one: it is the outcome that is judged
+                break
         if noise:
             noise.kill()
         out = {'ok': False, 'err': q.stderr[-300:], 'runs': [], 'rtts_us': []}
